@@ -73,6 +73,20 @@ def run_generic(pid, profile, tier, seed, domains=None, extra_domains=(), n_quic
             for h in hs:
                 nontriv.add(json.dumps(h["steps"], sort_keys=True))
         ck.cov["directed_family"] = {"name": fam.__name__, "histories": nf, "domains": rdoms}
+    if pid in ("C03", "C04"):
+        # large-magnitude family: constants around +-2^25..2^27 (beyond float precision; DBM weights, interval bounds,
+        # congruences with large moduli), each trace with its own sample of top (spec/DomainOps.tla RangeT / UT)
+        nf = 200 if tier == "quick" else 3000
+        for off in range(0, nf, 400):
+            hs = [hist.large_history(ck.rng, 900000 + off + i, params=ck.rng.choice(PARAMS)) for i in range(min(400, nf - off))]
+            fails, knowns, _ = domops.run_batch(ck, "large%d" % off, hs, doms, box=box, univ=univ, timeout=3000)
+            allf += fails
+            allk += knowns
+            for h in hs:
+                if hist.is_nontrivial(h):
+                    nontriv.add(json.dumps(h["steps"], sort_keys=True))
+        ck.cov["large_magnitude_family"] = {"name": "large_history", "histories": nf, "domains": len(doms),
+                                           "constants": "0, +-1, +-M, +-(M+1) and their pairwise sums, 2^25 <= M < 2^26 + 2^25"}
     if pid == "C16":    # directed family: copies and originals receiving the same operations
         nf = 300 if tier == "quick" else 1000
         tdoms = [d for d in doms if hist.exact_projection(d.split("#")[0])]     # the twin judgement needs a faithful projection
@@ -84,6 +98,16 @@ def run_generic(pid, profile, tier, seed, domains=None, extra_domains=(), n_quic
             for h in hs:
                 nontriv.add(json.dumps(h["steps"], sort_keys=True))
         ck.cov["directed_family"] = {"name": "twin_history", "histories": nf, "domains": tdoms}
+        # second directed family: disjuncts that become equal, then explicit minimize()/normalize()
+        nf2 = 200 if tier == "quick" else 2000
+        for off in range(0, nf2, 500):
+            hs = [hist.dup_disjunct_history(ck.rng, 750000 + off + i, params=ck.rng.choice(PARAMS)) for i in range(min(500, nf2 - off))]
+            fails, knowns, _ = domops.run_batch(ck, "dup%d" % off, hs, doms, box=box, univ=univ, timeout=3000)
+            allf += fails
+            allk += knowns
+            for h in hs:
+                nontriv.add(json.dumps(h["steps"], sort_keys=True))
+        ck.cov["directed_family_2"] = {"name": "dup_disjunct_history", "histories": nf2, "domains": len(doms)}
     if pid == "C04":    # second directed family: inclusion between values of the disjunctive domains
         ddoms = [d for d in doms if d in ("pow_int", "pow_sdbm", "dis_intervals", "vp_int", "term_dis_int", "ric", "congruences", "intervals")]
         nf = 200 if tier == "quick" else 1500
